@@ -270,7 +270,7 @@ def model_case(ctx, rng):
     return True
 
 
-VQE_CONFIGS = [("H2", None), ("H4", (0, 3)), ("H4+", None), ("H4t", (3,)), ("H4", None)]
+VQE_CONFIGS = [("H2", None), ("H4", (0, 3)), ("H4+", None), ("H4t", (3,)), ("H4", None), ("H4", (3,))]
 CLASSICAL = [("H2", None), ("H4", None), ("H4", (0,)), ("H4", (0, 3)), ("H4", (3,)), ("H4+", None), ("H4+", (0,)), ("H4t", None), ("H4t", (0,)), ("H3+", None), ("H3+", (2,)),
              ("LiH", (0,)), ("LiH", (0, 4, 5)), ("LiH", (0, 3)), ("LiH", None)]
 UHF_FROZEN = [None, (0,), (0, 5), ((0,), (0,)), ((0,), ()), ((0, 5), (4,)), ((), (0,))]
@@ -283,7 +283,11 @@ def run(ctx):
     rng.shuffle(combos)
     heavy = [c for c in combos if (c[0] == "H4" and c[1] is None) or c[0] == "H4+"]
     light = [c for c in combos if c not in heavy]
-    must = [c for c in light if c[0] == "H4t" and c[2] == "scBK"]      # spin-dependent encoding of a high-spin molecule: every run
+    # spin-dependent encoding of a high-spin molecule: every run - preceded by the singlet of the same active size under
+    # the same encoding and ordering (what one solver computed must not leak into the next one)
+    must = []
+    for u in (False, True):
+        must += [("H4", (3,), "scBK", u), ("H4t", (3,), "scBK", u)]
     chosen = must + [c for c in light if c not in must][:ctx.n(8, len(light))] + heavy[:ctx.n(0, 6)]
     for (m, f, mp, u) in chosen:
         for variant in (["plain"] if rng.random() < 0.6 else ["ref_vector"]):
